@@ -1163,7 +1163,11 @@ def c06_programs(tier, sd):
     # dynamic constraints referenced through list elements
     for il in ([E(["dynp", ["l", 1], "d0"])], [E(["dynp", ["l", 0], "d1"]), E(["dynp", ["l", 2], "d0"])],
                [E(["|", ["dynp", ["l", 1], "d0"], ["dynp", ["l", 1], "d1"]])], [E(["not", ["dynp", ["l", 2], "d0"]])],
-               [["foreach", ["l"], "i", [E(["<", ["it", "i", "b"], lit(9)])]], E(["dynp", ["l", 0], "d2"])]):
+               [["foreach", ["l"], "i", [E(["<", ["it", "i", "b"], lit(9)])]], E(["dynp", ["l", 0], "d2"])],
+               # ... referenced through the element a foreach index selects, also under a condition on the index / the element
+               [["foreach", ["l"], "i", [E(["dynp", ["l", ["idx", "i"]], "d0"])]]],
+               [["foreach", ["l"], "i", [["if", [[["==", ["idx", "i"], lit(1)], [E(["dynp", ["l", ["idx", "i"]], "d1"])]]], [E(["dynp", ["l", ["idx", "i"]], "d0"])]]]]],
+               [["foreach", ["l"], "i", [E(["|", ["dynp", ["l", ["idx", "i"]], "d0"], ["dynp", ["l", ["idx", "i"]], "d1"]])]]]):
         out.append({"tag": "dyn_list", "desc": "dynamic through list element %s" % (il,), "prog": pr, "world": [["h", "obj", "H"], ["x", "obj", "D"]],
                     "ops": spoil("x") + [["set", ["h", "l", 0, "n"], 2], ["randomize", ["h"]], ["randomize_with", ["h"], il], ["randomize", ["h"]],
                                          ["randomize_with", ["h"], il]]})
@@ -1347,6 +1351,13 @@ def c08_programs(tier, sd):
                         "ops": [["set", ["top", "s2", "x"], 3], ["set", ["top", "s2", "y"], 9], ["set", ["top", "s2", "arr", 0], 20], ["set", ["top", "s2", "arr", 1], 30],
                                 ["set", ["top", "s2", "arr", 2], 40], ["randomize", ["top"]], ["randomize", ["top"]],
                                 ["randomize_with", ["top"], [E([">", F("s1", "arr", 1), F("s1", "x")])]], ["vsc_randomize", [["top", "s1"]]]]})
+    # a scalar list reached through an element of a list of objects, by constant subscripts (class block and inline)
+    for ci, cs in enumerate([[E(["==", F("ll", 1, "arr", 1), lit(77)])], [E(["<", F("ll", 0, "arr", 2), F("ll", 1, "arr", 0)]), E(["==", F("a"), F("ll", 1, "arr", 2)])],
+                             [E(["<", ["+", F("ll", 0, "x"), F("ll", 1, "arr", 0)], lit(300)]), E([">", F("ll", 0, "arr", 1), F("s1", "arr", 1)])]]):
+        TopLL = {"name": "Top", "fields": [fld("a", ("u", 8)), ["s1", "obj", "SubL", True], ["ll", "list", ["obj", "SubL"], 2, True, False]], "blocks": [["tb", "c", cs]]}
+        out.append({"tag": "tree_sublist", "desc": "scalar lists of object-list elements, cross set %d" % ci, "prog": {"enums": {}, "classes": [SubL, TopLL]},
+                    "world": [["top", "obj", "Top"]],
+                    "ops": [["randomize", ["top"]], ["randomize", ["top"]], ["randomize_with", ["top"], [E([">", F("ll", 1, "arr", 1), F("ll", 0, "x")])]]]})
     # sub-objects, lists and fields held in attributes whose names start with a single underscore
     SubU = {"name": "SubU", "fields": [fld("lo", ("u", 8)), fld("_hi", ("u", 8))], "blocks": [["sb", "c", [E([">", F("lo"), lit(10)]), E(["<", F("lo"), F("_hi")])]]]}
     TopU = {"name": "Top", "fields": [["_shadow", "obj", "SubU", True], ["pub", "obj", "SubU", True], ["_l", "list", ["u", 8], 2, True, False], fld("_k", ("u", 8)), fld("a", ("u", 8))],
